@@ -248,13 +248,37 @@ class Ctx:
                     f.write("#print axioms %s\n" % t)
             cmd2 = ["lake", "env", "lean", afn]
             self.checker_cmds.append("cd lean && lake env lean .lake/audit/%s.lean  # #print axioms" % self.pid)
-            rc2, out2 = sh(cmd2, cwd=LEAN_DIR, timeout=600)
+            with lake_lock():  # never read .olean files while another check's lake build rewrites them
+                rc2, out2 = sh(cmd2, cwd=LEAN_DIR, timeout=600)
             for mm in re.finditer(r"'([^']+)' depends on axioms: \[([^\]]*)\]", out2.replace("\n", " ")):
                 axioms[mm.group(1)] = [a.strip() for a in mm.group(2).split(",") if a.strip()]
             for mm in re.finditer(r"'([^']+)' does not depend on any axioms", out2):
                 axioms[mm.group(1)] = []
             if rc2 != 0:
                 self.broken.append({"kind": "audit", "what": "#print axioms", "detail": out2[-1500:]})
+            # a theorem the audit did not report (truncated / interleaved output):
+            # ask again, one theorem per file, before giving up on it
+            missing = [t for _, t in thms if t not in axioms]
+            for t in missing[:80]:
+                afn1 = os.path.join(LEAN_DIR, ".lake", "audit", "%s_%s.lean" % (self.pid, hashlib.md5(t.encode()).hexdigest()[:8]))
+                with open(afn1, "w") as f:
+                    for m in modules:
+                        f.write("import %s\n" % m)
+                    f.write("#print axioms %s\n" % t)
+                with lake_lock():
+                    rc3, out3 = sh(["lake", "env", "lean", afn1], cwd=LEAN_DIR, timeout=600)
+                o3 = out3.replace("\n", " ")
+                mm = re.search(r"'([^']+)' depends on axioms: \[([^\]]*)\]", o3)
+                if mm:
+                    axioms[t] = [a.strip() for a in mm.group(2).split(",") if a.strip()]
+                elif "does not depend on any axioms" in o3:
+                    axioms[t] = []
+                else:
+                    self.broken.append({"kind": "audit", "what": t, "detail": "axiom audit gave no answer: " + out3[-400:]})
+                try:
+                    os.remove(afn1)
+                except OSError:
+                    pass
         for m, t in thms:
             ok = build_ok and t in axioms and set(axioms[t]) <= ALLOWED_AXIOMS
             detail = "axioms=%s" % axioms.get(t) if t in axioms else "not checked"
